@@ -86,15 +86,17 @@ func (d *rdb) lookup(path string) *rb {
 }
 
 var (
-	buckets = []string{"x", "x/s", "y"}
-	keys    = []string{"a", "a_s", "b", "\xff"}
+	// "xx" is a sibling of "x" whose name starts with x's name; "a\xff" is a key that is a
+	// 0xff-suffixed prefix of nothing and sorts directly below "b"
+	buckets = []string{"x", "x/s", "xx"}
+	keys    = []string{"a", "a_s", "b", "\xff", "a\xff"}
 	vals    = []string{"1", "2"}
-	prefs   = []string{"", "a", "a_", "\xff", "b"}
+	prefs   = []string{"", "a", "a_", "\xff", "b", "a\xff"}
 )
 
 // Alphabet of mutations.
 func alphabet() []string {
-	a := []string{"bw", "cm", "rb", "ro", "ct:y", "nb:x/s", "db:x/s"}
+	a := []string{"bw", "cm", "rb", "ro", "ct:xx", "nb:x/s", "db:x/s"}
 	for _, b := range buckets {
 		for _, k := range keys {
 			for _, v := range vals {
@@ -182,7 +184,7 @@ func (s *sut) observe(tx mwdb.ReadTransaction, d *rdb, where string, iter bool) 
 			s.fail("listing", "%s: top-level BucketNames=%v want %v", where, got, want)
 		}
 	}
-	for _, path := range append(append([]string{}, buckets...), "z", "x/t", "y/s") {
+	for _, path := range append(append([]string{}, buckets...), "z", "x/t", "xx/s", "y") {
 		rbk := d.lookup(path)
 		ib := implBucket(tx, path)
 		if rbk == nil {
@@ -263,7 +265,7 @@ func (s *sut) observe(tx mwdb.ReadTransaction, d *rdb, where string, iter bool) 
 			start, limit []byte
 			pref         bool
 		}
-		rs := []rng{{"all", nil, nil, false}, {"prefix a", []byte("a"), nil, true}, {"prefix a_", []byte("a_"), nil, true}, {"prefix ff", []byte("\xff"), nil, true},
+		rs := []rng{{"all", nil, nil, false}, {"prefix a", []byte("a"), nil, true}, {"prefix a_", []byte("a_"), nil, true}, {"prefix ff", []byte("\xff"), nil, true}, {"prefix a\\xff", []byte("a\xff"), nil, true},
 			{"[a,b)", []byte("a"), []byte("b"), false}, {"[a_,\\xff)", []byte("a_"), []byte("\xff"), false}, {"[b,)", []byte("b"), nil, false}}
 		for _, r := range rs {
 			var sl *mwdb.Range
